@@ -576,3 +576,164 @@ def _blocks_of(fn):
                 rec(h.body)
     rec(fn.body)
     return out
+
+
+# ------------------------------------------------------------------------------------------ loops over literal tables
+
+def _literal(e):
+    if isinstance(e, ast.Constant):
+        return True
+    if isinstance(e, (ast.Tuple, ast.List)):
+        return all(_literal(x) for x in e.elts)
+    if isinstance(e, ast.UnaryOp) and isinstance(e.op, ast.USub) and isinstance(e.operand, ast.Constant):
+        return True
+    return False
+
+
+def _tables(tree):
+    """Private names bound exactly once in the module - at module level or in a class body - to a literal tuple / list of
+    literals (at most 8 rows) and never stored to anywhere else: {(class or '', name): value expression}."""
+    found, stores = {}, {}
+    for s in tree.body:
+        scopes = [('', s)] if not isinstance(s, ast.ClassDef) else [(s.name, x) for x in s.body]
+        for cname, x in scopes:
+            if isinstance(x, ast.Assign) and len(x.targets) == 1 and isinstance(x.targets[0], ast.Name):
+                nm = x.targets[0].id
+                if nm.startswith('_') and not nm.startswith('__') and isinstance(x.value, (ast.Tuple, ast.List)) and \
+                        _literal(x.value) and 0 < len(x.value.elts) <= 8:
+                    found.setdefault(nm, []).append((cname, x.value))
+    for n in ast.walk(tree):
+        if isinstance(n, ast.Attribute) and isinstance(n.ctx, (ast.Store, ast.Del)):
+            stores[n.attr] = stores.get(n.attr, 0) + 1
+        elif isinstance(n, ast.Name) and isinstance(n.ctx, (ast.Store, ast.Del)):
+            stores[n.id] = stores.get(n.id, 0) + 1
+        elif isinstance(n, ast.Global):
+            for g in n.names:
+                stores[g] = stores.get(g, 0) + 2
+    out = {}
+    for nm, defs in found.items():
+        if len(defs) == 1 and stores.get(nm, 0) == 1:
+            out[(defs[0][0], nm)] = defs[0][1]
+    return out
+
+
+def unroll_table_loops(tree, known_functions):
+    """`for a, b in <literal table>: body` (the table written in place, or a private module / class constant the
+    reference tree does not have) is written out row by row, the loop variables replaced by the row's literals, and
+    `getattr(x, '<name>')` read as `x.<name>`.  Only loops without break / continue / else whose variables the body does not
+    store to.  Returns descriptions of what was done."""
+    tables = _tables(tree)
+    done = []
+
+    def table_of(e, cls_name):
+        if isinstance(e, (ast.Tuple, ast.List)) and _literal(e) and 0 < len(e.elts) <= 8:
+            return e
+        if isinstance(e, ast.Name):
+            return tables.get(('', e.id))
+        if isinstance(e, ast.Attribute) and isinstance(e.value, ast.Name):
+            if e.value.id in ('self', 'cls'):
+                cands = [v for (c, n), v in tables.items() if n == e.attr and c]
+                return cands[0] if len(cands) == 1 else None
+            return tables.get((e.value.id, e.attr))
+        return None
+
+    def unroll(block, cls_name, fname):
+        i = 0
+        while i < len(block):
+            s = block[i]
+            if isinstance(s, _SCOPES):
+                i += 1
+                continue
+            for f in ('body', 'orelse', 'finalbody'):
+                b = getattr(s, f, None)
+                if isinstance(b, list) and b and isinstance(b[0], ast.stmt):
+                    unroll(b, cls_name, fname)
+            for h in getattr(s, 'handlers', []) or []:
+                unroll(h.body, cls_name, fname)
+            if not isinstance(s, ast.For) or s.orelse:
+                i += 1
+                continue
+            tab = table_of(s.iter, cls_name)
+            if tab is None:
+                i += 1
+                continue
+            own = list(_walk_own(s.body))
+            if any(isinstance(x, (ast.Break, ast.Continue, ast.Yield, ast.YieldFrom)) and not _inside_inner_loop(x, s) for x in own):
+                i += 1
+                continue
+            tnames = [t.id for t in ast.walk(s.target) if isinstance(t, ast.Name)]
+            if not all(isinstance(t, (ast.Name, ast.Tuple, ast.List, ast.expr_context)) for t in ast.walk(s.target)):
+                i += 1
+                continue
+            if any(isinstance(x, ast.Name) and x.id in tnames and isinstance(x.ctx, (ast.Store, ast.Del)) for x in own):
+                i += 1
+                continue
+            new = []
+            ok = True
+            for row in tab.elts:
+                mapping = {}
+                if isinstance(s.target, ast.Name):
+                    mapping[s.target.id] = row
+                elif isinstance(row, (ast.Tuple, ast.List)) and len(row.elts) == len(s.target.elts) and \
+                        all(isinstance(t, ast.Name) for t in s.target.elts):
+                    for t, v in zip(s.target.elts, row.elts):
+                        mapping[t.id] = v
+                else:
+                    ok = False
+                    break
+                body = [_clone(x) for x in s.body]
+                _subst_names(body, mapping)
+                for x in body:
+                    for c in ast.walk(x):
+                        if isinstance(c, ast.Call) and isinstance(c.func, ast.Name) and c.func.id == 'getattr' and len(c.args) == 2 and \
+                                not c.keywords and isinstance(c.args[1], ast.Constant) and isinstance(c.args[1].value, str) and \
+                                c.args[1].value.isidentifier():
+                            obj, nm = c.args[0], c.args[1].value
+                            c.__class__ = ast.Attribute
+                            c.__dict__.clear()
+                            c.__dict__.update({'value': obj, 'attr': nm, 'ctx': ast.Load()})
+                new.extend(body)
+            if not ok:
+                i += 1
+                continue
+            # after the loop the variables hold the last row
+            last = tab.elts[-1]
+            tail = ast.Assign(targets=[_clone_target(s.target)], value=_clone(last), lineno=s.lineno)
+            if _live_names_after(block, i, tnames):
+                new.append(tail)
+            for x in new:
+                for y in ast.walk(x):
+                    if isinstance(y, (ast.stmt, ast.expr)):
+                        y.lineno = s.lineno
+                        y.col_offset = getattr(s, 'col_offset', 0)
+                        y.end_lineno = getattr(s, 'end_lineno', s.lineno)
+                        y.end_col_offset = getattr(s, 'end_col_offset', 0)
+            block[i:i + 1] = new
+            done.append('loop over a literal table of %d row(s) written out in %s' % (len(tab.elts), fname))
+            i += len(new)
+
+    for s in tree.body:
+        if isinstance(s, ast.FunctionDef):
+            unroll(s.body, None, s.name)
+        elif isinstance(s, ast.ClassDef):
+            for m in s.body:
+                if isinstance(m, ast.FunctionDef):
+                    unroll(m.body, s.name, '%s.%s' % (s.name, m.name))
+    return done
+
+
+def _inside_inner_loop(x, loop):
+    for inner in ast.walk(loop):
+        if inner is not loop and isinstance(inner, (ast.For, ast.While)) and any(y is x for y in ast.walk(inner)):
+            return True
+    return False
+
+
+def _live_names_after(block, i, names):
+    """Conservative: is any of `names` read textually after statement i of this block (or could be: we only look at the rest of
+    the block; enclosing blocks are not visible here, so answer True when the block is not a function body's tail)."""
+    for s in block[i + 1:]:
+        for x in ast.walk(s):
+            if isinstance(x, ast.Name) and x.id in names and isinstance(x.ctx, ast.Load):
+                return True
+    return False
